@@ -166,7 +166,7 @@ func ConfigYAML(c scn.Config) string {
 // wall-clock backstop only catches a child that neither computes nor ends (the fake-clock runtime
 // reports "all goroutines are asleep" for that by itself, so it is not expected to fire).
 const (
-	cpuBudget     = 30 * time.Second
+	cpuBudget     = 12 * time.Second
 	wallBackstop  = 5 * time.Minute
 	longCPUBudget = 40 * time.Minute
 	longBackstop  = 3 * time.Hour
